@@ -4,11 +4,11 @@ package main
 // padding non-interference rule (C04-R5, shared with C05) and the drivers.
 
 import (
-	"os"
 	"fmt"
 	"go/constant"
 	"go/token"
 	"go/types"
+	"os"
 	"strings"
 
 	"golang.org/x/tools/go/ssa"
@@ -128,7 +128,6 @@ func rulePaddingNonInterference(c *Ctx, rule string, fns []*ssa.Function) {
 		}
 	}
 }
-
 
 func provEq(A *Aff, b *ssa.BasicBlock, x, y *Lin) bool {
 	return x.Equal(y) || (A.Prove(b, GE(x, y)) && A.Prove(b, LE(x, y)))
@@ -415,7 +414,7 @@ func checkMaskExpansion(c *Ctx, rule string, A *Aff, newHdr *ssa.Function) {
 			eachInstr(exp, func(ins ssa.Instruction) {
 				switch x := ins.(type) {
 				case *ssa.BinOp:
-					if x.Op == token.SHR && x.X == ssa.Value(exp.Params[0]) {
+					if x.Op == token.SHR && stripWidening(x.X) == ssa.Value(exp.Params[0]) {
 						if A.Lin(x.Y).Equal(LinConst(m.width).Sub(LinSym(A.sym(n)))) {
 							// result masked with 1 and compared with 1
 							okShift = true
@@ -601,7 +600,10 @@ func checkSignalAttachment(c *Ctx, rule, fam string, A *Aff, hl *headerLemma, si
 		}
 		return over(ln.Call.Args[0])
 	}
-	iOK := iIdx != nil && isRangeOver(iIdx, func(v ssa.Value) bool { f, base := loadedField(v); return f == hl.cells && root(base) == ssa.Value(hdrP) })
+	iOK := iIdx != nil && isRangeOver(iIdx, func(v ssa.Value) bool {
+		f, base := loadedField(v)
+		return f == hl.cells && root(base) == ssa.Value(hdrP)
+	})
 	jOK := jIdx != nil && isRangeOver(jIdx, func(v ssa.Value) bool {
 		ld, ok := v.(*ssa.UnOp)
 		if !ok {
